@@ -67,7 +67,7 @@ var yieldSites = []string{"multiplexing.open.sent", "multiplexing.accept.establi
 func genMux(p *simkit.Plan, r *simkit.Rand, tier string) {
 	c := p.Cfg
 	prof := p.Scenario
-	c["window"] = int64(simkit.Pick(r, []int{1, 2, 7, 16, 64, 256, 256, 1000, 65535}))
+	c["window"] = int64(simkit.Pick(r, []int{1, 2, 7, 16, 64, 256, 256, 1000, 65535, 262144}))
 	if prof == "stall" && r.Chance(1, 10) {
 		c["window"] = 0
 	}
@@ -111,8 +111,13 @@ func genMux(p *simkit.Plan, r *simkit.Rand, tier string) {
 	if maxWrite > 5000 {
 		maxWrite = 5000
 	}
-	if r.Chance(1, 12) {
+	if r.Chance(1, 12) || (c["window"] > 65535 && r.Chance(2, 3)) {
 		maxWrite = 150000 // crosses the 65535-byte data frame limit
+		if c["window"] > 65535 {
+			// (a receive window larger than one data frame: a single Write
+			// must be cut into frames, not into window-sized blocks)
+			c["frag"] = int64(simkit.Pick(r, []int{1000, 0}))
+		}
 	}
 	if f := int(c["frag"]); f > 0 && maxWrite > f*400 {
 		maxWrite = f * 400 // keep the number of delivery steps bounded
@@ -211,6 +216,39 @@ func genMux(p *simkit.Plan, r *simkit.Rand, tier string) {
 				add(fmt.Sprintf("%s%d", sd, 3+k), "open", int64(extra), int64(simkit.Pick(r, []int{400, 1500})))
 			}
 		}
+	}
+	if prof == "conform" && r.Chance(1, 5) {
+		// A sustained bulk transfer with heartbeats required: the carrier is
+		// saturated for several receive-timeout intervals on end (each data
+		// frame takes a small fraction of one), and heartbeats have to keep
+		// flowing between the frames in both directions.
+		slot := 60
+		side := simkit.Pick(r, sides)
+		ensureOpen(slot)
+		c["heartbeat_ms"], c["hbrecv_ms"] = 50, 300
+		c["delay_us"], c["frag"], c["linkcap"], c["short"] = 1000, 1000, 4096, 0
+		c["wbuf"] = int64(simkit.Pick(r, []int{2, 3}))
+		c["window"], c["window_b"] = 16384, 16384
+		c["sched_stall"] = 0
+		add(writeActor(side, slot), "write", int64(slot), int64(r.Range(600000, 1000000)))
+		for k := 0; k < 90; k++ {
+			add(readActor(other[side], slot), "read", int64(slot), 16384)
+		}
+	}
+	if prof == "stall" && r.Chance(1, 5) {
+		// Data that arrives at the very instant a blocked reader's deadline
+		// expires, and a second read afterwards (the deadline is still the
+		// same and long past: it must not block).
+		slot := 70
+		side := simkit.Pick(r, sides)
+		ensureOpen(slot)
+		c["sched_stall"], c["delay_us"] = 0, 0
+		rd, wr := readActor(side, slot), writeActor(other[side], slot)
+		add(rd, "rdeadline", int64(slot), int64(simkit.Pick(r, []int{20, 40})))
+		add(wr, "tie", int64(slot))
+		add(wr, "write", int64(slot), int64(r.Range(1, 3)))
+		add(rd, "read", int64(slot), 16)
+		add(rd, "read", int64(slot), 16)
 	}
 	if prof == "stall" && r.Chance(1, 4) {
 		p.Faults = append(p.Faults, simkit.Fault{Kind: "link_cut", Key: simkit.Pick(r, []string{"A>B", "B>A"}), Nth: 1, Arg: int64(r.Range(0, 400))})
@@ -482,6 +520,31 @@ func (h *harness) exec(sd *side, actor string, op simkit.Op) {
 		h.mu.Unlock()
 		h.end(actor)
 		s.Logf(actor, "close sid=%d -> %s", sl.sid, errClass(err))
+	case "tie":
+		// What this side sends next on the carrier arrives at the instant the
+		// peer's read deadline on that stream expires.
+		sl := getSlot()
+		if sl == nil {
+			return
+		}
+		peer := h.peerSlot(sl)
+		if peer == nil {
+			return
+		}
+		h.mu.Lock()
+		at := peer.rdl
+		h.mu.Unlock()
+		if at.IsZero() || time.Until(at) <= 0 {
+			return
+		}
+		l := h.ab
+		if sd.name == "B" {
+			l = h.ba
+		}
+		l.mu.Lock()
+		l.tieAt = at
+		l.mu.Unlock()
+		s.Logf(actor, "tie sid=%d: the next bytes arrive at the peer's read deadline", sl.sid)
 	case "rdeadline", "wdeadline":
 		sl := getSlot()
 		if sl == nil {
